@@ -515,3 +515,145 @@ Example C13_namespaces_nonvacuous :
   (nresults_of 1 (ntrace KeyRequested cfg_one [[NLoad 0 0%N]; [NLoad 1 0%N]] [0;0;0;0;0;0; 1;1;1;1;1;1;1; 0;0]) = [NFound None]) /\
   (nresults_of 1 (ntrace KeyMapped cfg_one [[NLoad 0 0%N]; [NLoad 1 0%N]] [0;0;0;0;0;0; 1;1;1;1;1;1;1; 0;0; 1;1;1;1]) = [NFound (Some 0)]).
 Proof. exact key_requested_not_found. Qed.
+
+
+(* ---- several namespaces, one file: WHAT the loads return, and that they return (depth pass) ---------------------- *)
+From PcoreV Require Import Proofs.ConcNsLoadProofs Proofs.ConcNsLiveProofs Model.ConcNsChain Proofs.ConcNsChainProofs
+  Proofs.ConcNsChainLiveProofs.
+
+(* For EVERY set of files, number of namespaces, program and schedule (also unfinished ones): a px.Load of a file that
+   can be instantiated, through a namespace OTHER than the first, that has returned has returned the value which the
+   one instantiation of the file bound - never "not found", never an error.  (Invariant ConcNsLoadProofs.linv: while a
+   thread is at "instantiate.marked" the lock table still maps the first-namespace name to the mutex it holds, all
+   threads on their way in have that mutex, nobody is past the critical section; the other namespaces' names of a good
+   file never hold an entry without value; a value is bound in all namespaces in one step.)  Through the FIRST
+   namespace the statement is false - open finding load-during-instantiate, C13_namespaces_first_namespace_refuted. *)
+Theorem C13_namespaces_load_finds_value :
+  forall (c : ncfg) (p : nprog) (sch : list nat) (t : nat) (s : nat) (b : N) (r : nres),
+    has_file c b = true -> is_bad c b = false -> 1 <= s -> s <= n_extra c ->
+    In (NvRes t (NLoad s b) r) (ntrace KeyMapped c p sch) -> r = NFound (Some 0).
+Proof. exact ns_load_finds_value. Qed.
+Print Assumptions C13_namespaces_load_finds_value.
+
+Definition C13_statement_namespaces_load_finds_value_any_namespace : Prop :=
+  forall (c : ncfg) (p : nprog) (sch : list nat) (t : nat) (s : nat) (b : N) (r : nres),
+    has_file c b = true -> is_bad c b = false -> s <= n_extra c ->
+    In (NvRes t (NLoad s b) r) (ntrace KeyMapped c p sch) -> r = NFound (Some 0).
+Theorem C13_namespaces_first_namespace_refuted : ~ C13_statement_namespaces_load_finds_value_any_namespace.
+Proof.
+  intros H.
+  assert (Hx : In (NvRes 1 (NLoad 0 0%N) (NFound None))
+                  (ntrace KeyMapped cfg_one [[NLoad 0 0%N]; [NLoad 0 0%N]] [0;0;0;0;0;0; 1;1])) by (vm_compute; auto).
+  apply H in Hx; [discriminate|reflexivity|reflexivity|cbn; lia].
+Qed.
+Print Assumptions C13_namespaces_first_namespace_refuted.
+
+(* While some thread of the program has not finished, some thread of the program can move: whoever holds a name mutex
+   is in the critical section of instantiate (ConcNsLiveProofs.nhinv) and never waits there. *)
+Theorem C13_namespaces_no_deadlock :
+  forall (c : ncfg) (p : nprog) (s : list nat),
+    nall_done (nexec KeyMapped c p s) (length p) = false ->
+    exists t, t < length p /\ nenabled (nexec KeyMapped c p s) t = true.
+Proof. exact ns_no_deadlock. Qed.
+Print Assumptions C13_namespaces_no_deadlock.
+
+(* Liveness + result: whatever has happened so far, the schedule can be continued until every thread has finished
+   (every step of an enabled thread decreases ConcNsLiveProofs.ntm), and then every thread has exactly one result per
+   operation of its program, in program order, and every load of a good file through a namespace other than the first
+   has returned the value of the file. *)
+Theorem C13_namespaces_every_load_returns_value :
+  forall (c : ncfg) (p : nprog) (s : list nat),
+    exists s', nall_done (nexec KeyMapped c p (s ++ s')) (length p) = true /\
+      forall t, map fst (nevs_of t (ntrace KeyMapped c p (s ++ s'))) = nth t p [] /\
+        forall sn b r, has_file c b = true -> is_bad c b = false -> 1 <= sn -> sn <= n_extra c ->
+          In (NLoad sn b, r) (nevs_of t (ntrace KeyMapped c p (s ++ s'))) -> r = NFound (Some 0).
+Proof. exact ns_every_load_returns_value. Qed.
+Print Assumptions C13_namespaces_every_load_returns_value.
+
+(* ... and the same for EVERY schedule after which all threads have finished *)
+Theorem C13_namespaces_finished_loads_have_value :
+  forall (c : ncfg) (p : nprog) (s : list nat),
+    nall_done (nexec KeyMapped c p s) (length p) = true ->
+    forall t, map fst (nevs_of t (ntrace KeyMapped c p s)) = nth t p [] /\
+      forall sn b r, has_file c b = true -> is_bad c b = false -> 1 <= sn -> sn <= n_extra c ->
+        In (NLoad sn b, r) (nevs_of t (ntrace KeyMapped c p s)) -> r = NFound (Some 0).
+Proof. exact ns_finished_loads_have_value. Qed.
+Print Assumptions C13_namespaces_finished_loads_have_value.
+
+Example C13_namespaces_loads_nonvacuous :
+  let st := nexec KeyMapped cfg_one [[NLoad 1 0%N]; [NLoad 2 0%N]; [NLoad 0 0%N; NLoad 2 0%N]]
+                  [0;0;0;0;0; 1;1;1;1; 2;2;2;2; 0;0;0;0; 1;1;1;1;1; 2;2;2;2;2;2;2;2] in
+  nall_done st 3 = true /\ nsparse 0%N (ns_log st) = 1 /\
+  nevs_of 0 (ns_log st) = [(NLoad 1 0%N, NFound (Some 0))] /\ nevs_of 1 (ns_log st) = [(NLoad 2 0%N, NFound (Some 0))] /\
+  map snd (nevs_of 2 (ns_log st)) = [NFound (Some 0); NFound (Some 0)].
+Proof. vm_compute. auto. Qed.
+
+(* ---- the same loader inside a chain  static <- A.. <- M <- C..  of parented loaders (Model/ConcNsChain.v) ---------- *)
+
+(* Simulation: for EVERY chain (number of parented loaders above and below M), program of loads and HasEntry questions
+   through ANY loader of the chain, and schedule, the state of M moves by steps of Model/ConcNs.v only (a parented
+   loader is a pass-through with yield points for names that it does not bind): every invariant of ConcNs.v that
+   survives handing an idle thread its next load holds of M in every chain. *)
+Theorem C13_chain_simulation :
+  forall (c : ccfg) (I : nstate -> Prop),
+    I (ninit []) ->
+    (forall st t, I st -> I (nstep KeyMapped (c_m c) st t)) ->
+    (forall st t s b, I st -> nt_pc (ns_thr st t) = NIdle -> I (nenter st t s b)) ->
+    forall (p : cprog) (s : list nat), I (cs_in (cexec c p s)).
+Proof. exact cs_in_invariant. Qed.
+Print Assumptions C13_chain_simulation.
+
+Theorem C13_chain_instantiate_once :
+  forall (c : ccfg) (p : cprog) (s : list nat) (b : N), nsparse b (ns_log (cs_in (cexec c p s))) <= 1.
+Proof. exact chain_instantiate_once. Qed.
+Print Assumptions C13_chain_instantiate_once.
+
+Theorem C13_chain_lock_holder :
+  forall (c : ccfg) (p : cprog) (s : list nat) (t : nat) (lk : nat),
+    nholds (pcof (cs_in (cexec c p s)) t) = Some lk -> nheld (ns_sh (cs_in (cexec c p s))) lk = Some t.
+Proof. exact chain_lock_holder. Qed.
+Print Assumptions C13_chain_lock_holder.
+
+(* a load of a good file through a namespace other than the first, through M or through any loader BELOW M, that has
+   returned has returned the value of the one instantiation (what a loader below M returns is what M handed up) *)
+Theorem C13_chain_load_finds_value :
+  forall (c : ccfg) (p : cprog) (sch : list nat) (t : nat) (l : nat) (s : nat) (b : N) (r : nres),
+    has_file (c_m c) b = true -> is_bad (c_m c) b = false -> 1 <= s -> s <= n_extra (c_m c) ->
+    c_above c + 1 <= l -> l <= c_above c + 1 + c_below c ->
+    In (t, CLoad l s b, r) (cs_log (cexec c p sch)) -> r = NFound (Some 0).
+Proof. exact chain_load_finds_value. Qed.
+Print Assumptions C13_chain_load_finds_value.
+
+(* In every chain: while some thread of the program has not finished, some thread of the program can move (the steps of
+   the parented loaders are always enabled; a thread that waits for a name mutex waits for a thread inside M.LoadEntry
+   that can move). *)
+Theorem C13_chain_no_deadlock :
+  forall (c : ccfg) (p : cprog) (s : list nat),
+    call_done (cexec c p s) (length p) = false ->
+    exists t, t < length p /\ cenabled (cexec c p s) t = true.
+Proof. exact chain_no_deadlock. Qed.
+Print Assumptions C13_chain_no_deadlock.
+
+(* Liveness + result in every chain: whatever has happened so far, the schedule can be continued until every thread has
+   finished (measure ConcNsChainLiveProofs.ctm: loaders above M still to pass, the measure of ConcNs.v inside M, loaders
+   below M still to pass); then every thread has one result per operation of its program, in program order, and every
+   load of a good file through a namespace other than the first, through M or a loader below M, has the value. *)
+Theorem C13_chain_every_load_returns_value :
+  forall (c : ccfg) (p : cprog) (s : list nat),
+    exists s', call_done (cexec c p (s ++ s')) (length p) = true /\
+      forall t, map fst (cevs_of t (cs_log (cexec c p (s ++ s')))) = nth t p [] /\
+        forall l sn b r, has_file (c_m c) b = true -> is_bad (c_m c) b = false -> 1 <= sn -> sn <= n_extra (c_m c) ->
+          c_above c + 1 <= l -> l <= c_above c + 1 + c_below c ->
+          In (CLoad l sn b, r) (cevs_of t (cs_log (cexec c p (s ++ s')))) -> r = NFound (Some 0).
+Proof. exact chain_every_load_returns_value. Qed.
+Print Assumptions C13_chain_every_load_returns_value.
+
+(* static <- A <- M <- C: a load through C and one through M find the value of one instantiation; a load through A
+   (above M: the file is not visible there) caches a miss in A *)
+Example C13_chain_nonvacuous :
+  let st := cexec (mkCC cfg_one 1 1) [[CLoad 3 1 0%N]; [CLoad 2 2 0%N]; [CLoad 1 1 0%N; CLoad 1 1 0%N]]
+                  [0;0;0;0;0; 1;1;1;1; 2;2;2; 0;0;0;0;0;0; 1;1;1;1;1;1; 2;2;2;2;2] in
+  call_done st 3 = true /\ nsparse 0%N (ns_log (cs_in st)) = 1 /\
+  cresults_of 0 (cs_log st) = [NFound (Some 0)] /\ cresults_of 1 (cs_log st) = [NFound (Some 0)] /\
+  cresults_of 2 (cs_log st) = [NFound None; NFound None] /\ cs_miss st 1 1 0%N = true.
+Proof. vm_compute. auto 10. Qed.
